@@ -3291,7 +3291,8 @@ class Norm:
         if k == "Struct":
             fields = {f["name"]: self._t(f["e"]) for f in e["fields"]}
             if "base" in e:
-                fields[".."] = self._t(e["base"])
+                # S { f: v, ..base }  is  base with f set to v  (the same value as `let mut b = base; b.f = v; b`)
+                return ("mut", "?", self._t(e["base"]), [("assign", name, fields[name], []) for name in sorted(fields)])
             return ("struct", e.get("adt", e.get("path", "?")), e.get("variant", ""), fields)
         if k == "Tup":
             return ("tup", [self._t(x) for x in e["es"]])
@@ -3365,24 +3366,8 @@ class Norm:
 
 
 def _has_try(t):
-    """a `?` in t outside nested closures"""
-    if t[0] == "try":
-        return True
-    if t[0] == "closure":
-        return False
-    if t[0] in ("call",):
-        return any(_has_try(a) for a in t[2])
-    if t[0] in ("tup", "array"):
-        return any(_has_try(a) for a in t[1])
-    if t[0] in ("field", "proj", "cast"):
-        return _has_try(t[1] if t[0] != "cast" else t[2])
-    if t[0] == "struct":
-        return any(_has_try(v) for v in t[3].values())
-    if t[0] == "tpl":
-        return any(_has_try(v) for v in t[3])
-    if t[0] == "if":
-        return _has_try(t[2]) or _has_try(t[3])
-    return False
+    """a `?` in t outside nested closures (wherever it sits: call arguments, format arguments, conditions, operands, ..)"""
+    return any(x[0] == "try" for x in subterms(t, closures=False))
 
 
 def _split_or(c):
